@@ -198,9 +198,68 @@ def problems():
     return out
 
 
+def source_kinds():
+    """"for all generators": the source is any callable that returns an async generator - a plain function, a bound method,
+    a functools.partial of either (no __name__ / __qualname__), an instance whose __call__ is a generator, a lambda around
+    one.  Each yields exactly its items and then its own ending, consumed where it was created."""
+    import functools
+    out = []
+    boom = Boom("k")
+
+    async def plain(items, fail):
+        for x in items:
+            yield x
+        if fail:
+            raise boom
+
+    class Holder:
+        async def method(self, items, fail):
+            for x in items:
+                yield x
+            if fail:
+                raise boom
+
+        async def __call__(self, items, fail):
+            for x in items:
+                yield x
+            if fail:
+                raise boom
+    holder = Holder()
+    kinds = [("a plain function", plain, ([0, 1, 2],)), ("a bound method", holder.method, ([0, 1, 2],)),
+             ("a functools.partial of a function", functools.partial(plain, [0, 1, 2]), ()),
+             ("a partial carrying every argument", None, ()),
+             ("an instance whose __call__ is a generator", holder, ([0, 1, 2],)),
+             ("a partial of a bound method", functools.partial(holder.method, [0, 1, 2]), ()),
+             ("a lambda returning a generator", lambda items, fail: plain(items, fail), ([0, 1, 2],))]
+
+    async def main():
+        for fail in (False, True):
+            for what, source, lead in kinds:
+                got, end = [], "end"
+                try:
+                    async with ctx.scope("root", S(v=1)):
+                        if source is None:
+                            stream = ctx.stream(functools.partial(plain, [0, 1, 2], fail))
+                        else:
+                            stream = ctx.stream(source, *lead, fail)
+                        try:
+                            async for x in stream:
+                                got.append(x)
+                        except Boom as e:
+                            end = "boom" if e is boom else f"another Boom {e!r}"
+                except BaseException as e:  # noqa
+                    end = f"{e!r}"
+                want = "boom" if fail else "end"
+                if got != [0, 1, 2] or end != want:
+                    out.append(f"stream over {what} ({'failing' if fail else 'finite'}): items {got} then {end}; "
+                               f"the generator yields [0, 1, 2] then {want}")
+    asyncio.run(main())
+    return out
+
+
 def main():
     sys.stdin.read()
-    p = problems()
+    p = problems() or source_kinds()
     if p:
         print(json.dumps(dict(reproduced=True, detail=dict(problems=p[:5]), cases_tried=1)))
     else:
